@@ -84,7 +84,25 @@ func mapStr(m map[string]uint64) string {
 func (m *MW) CheckBalances(mint, when string) {
 	W := m.W
 	if len(m.Pending) > 0 || len(W.LN.InflightKeys()) > 0 {
-		return
+		// a melt whose payment is in flight LOCKS its inputs, it has not consumed them: the totals are
+		// comparable as long as every unresolved melt the harness knows of is really still in flight
+		// (a payment that has ended without the mint having noticed is consumed or not depending on
+		// who is asked) and no other payment is in flight
+		for _, pm := range m.Pending {
+			pay := W.LN.Payments[pm.Key]
+			if !pm.Known || pm.Mint != mint || pay == nil || pay.Truth != ptInflight {
+				return
+			}
+			for _, p := range pm.Ins {
+				if m.Unknown[p.Secret] {
+					return
+				}
+			}
+		}
+		if len(W.LN.InflightKeys()) != len(m.Pending) || m.Faulted {
+			return
+		}
+		m.rc.S.Probe("c16_balances_compared_with_melt_in_flight")
 	}
 	node := W.Mints[mint]
 	W.Book.FinalizeMelts()
